@@ -8,7 +8,7 @@ import z3
 from checks.common import Check, VERIF
 from pyvc.interp import Program
 from pyvc import solve, models
-from contracts import lattice as K, lattice_vc as V, prune as P, orchestration as OC
+from contracts import lattice as K, lattice_vc as V, prune as P, orchestration as OC, match_fn as MF
 from rtc import runner, suites
 
 
@@ -27,6 +27,7 @@ def catalog(prog, tier):
         'match_states': lambda: [OC.vc_match_states(prog, k, f) for k, f in (('node', 'base'), ('edge', 'base'), ('edge', 'distance'))],
         'start_nodes': lambda: [OC.vc_create_start_nodes(prog, ue, fam, ex) for ue, fam, ex in ((True, 'base', False), (False, 'base', False), (True, 'distance', False), (True, 'base', True))],
         'final_choice': lambda: [OC.vc_build_node_path_choice(prog, le) for le in (False, True)],
+        'match': lambda: [MF.vc_match(prog, ex, sp, w) for ex, sp, w in ((False, False, False), (True, False, False), (True, True, False), (False, False, True), (True, False, True))],
         'ne_end': lambda: [OC.vc_ne_end(prog, k, f) for k, f in (('node', 'base'), ('edge', 'base'), ('edge', 'distance'))],
         'ne_inner': lambda: [OC.vc_ne_inner(prog, k, f) for k, f in (('node', 'base'), ('edge', 'base'), ('edge', 'distance'))],
         'trans': lambda: [V.vc_trans_distance(prog, o, h) for o in (True, False) for h in (True, False)] +
